@@ -524,6 +524,7 @@ def run(rec, shard, nshards, t):
             rec.sample({'views_file': render_views(gl, views)[:700], 'payments_of_M0': [(t['date'].isoformat()[:10], t['amount']) for t in txns if t['merchant'] == 'M0'][:8]})
     if shard == 0:
         witness_day(rec)
+        witness_periods(rec)
 
 
 def witness_day(rec):
@@ -533,6 +534,34 @@ def witness_day(rec):
              'subcategory': '', 'source': 's', 'tags': []} for d in (3, 20)]
     judge(rec, rnd, txns, [], [{'name': 'Twice a day', 'locals': [], 'filter': 'max(count(by("day"))) >= 2'},
                                {'name': 'Weekly', 'locals': [], 'filter': 'count(by("week")) >= 2'}] + [{'name': 'P%d' % i, 'locals': [], 'filter': 'true'} for i in range(4)])
+
+
+def witness_periods(rec):
+    """Fixed scenarios the random generator only meets now and then: the analysis period read through a VARIABLE on data that does not span twelve months,
+    and merchants paid in the same calendar month of two different years."""
+    rnd = core.rng_for('C10', 'wp')
+
+    def tx(name, y, m, d, amt, cat='Bills'):
+        return {'date': datetime(y, m, d), 'raw_description': name.upper(), 'description': name, 'amount': amt, 'merchant': name, 'category': cat,
+                'subcategory': '', 'source': 's', 'tags': []}
+    # half a year of statements; thresholds derived from period("month") / period("year") in globals and locals
+    half = [tx('Rent', 2025, m, 1, 1200.0) for m in range(1, 7)] + [tx('Gym', 2025, m, 5, 30.0) for m in (1, 2, 3, 4)] + [tx('Cafe', 2025, m, 9, 4.5) for m in (2, 5)] + \
+           [tx('Gift', 2025, 3, 14, 80.0)]
+    views = [{'name': 'Most months', 'locals': [], 'filter': 'months >= most'}, {'name': 'Half', 'locals': [], 'filter': 'months >= half'},
+             {'name': 'Local half', 'locals': [('h', 'period("month") / 2')], 'filter': 'months >= h'},
+             {'name': 'Direct', 'locals': [], 'filter': 'months >= period("month") * 0.5'},
+             {'name': 'Yearly share', 'locals': [('per_year', 'count(payments) / period("year")')], 'filter': 'per_year >= 4'},
+             {'name': 'Rare', 'locals': [], 'filter': 'months < half'}]
+    judge(rec, rnd, half, [('half', 'period("month") * 0.5'), ('most', 'period("month") * 0.75')], views)
+    # two years of statements; yearly renewals in the same calendar month, a monthly bill over 14 months
+    two = [tx('Domain', 2024, 3, 10, 15.0), tx('Domain', 2025, 3, 10, 15.0), tx('Insurance', 2024, 11, 2, 600.0), tx('Insurance', 2025, 11, 2, 640.0)] + \
+          [tx('Phone', 2024 + (m > 12), (m - 1) % 12 + 1, 3, 40.0) for m in range(1, 15)] + [tx('Once', 2025, 7, 7, 99.0)]
+    views = [{'name': 'Two months', 'locals': [], 'filter': 'months >= 2'}, {'name': 'Over a year', 'locals': [], 'filter': 'months > 12'},
+             {'name': 'Exactly', 'locals': [], 'filter': 'months == 2 and count(by("month")) == 2'}, {'name': 'Years', 'locals': [], 'filter': 'count(by("year")) == 2'},
+             {'name': 'Var', 'locals': [('m2', 'months * 2')], 'filter': 'm2 >= 4'}, {'name': 'Share', 'locals': [], 'filter': 'months / period("month") >= 0.9'},
+             {'name': 'Per year', 'locals': [], 'filter': 'period("year") == 2 and months >= per'}]
+    judge(rec, rnd, two, [('per', 'period("year")')], views)
+    rec.count('fixed_period_scenarios', 2)
 
 
 def replay(rec, case):
